@@ -440,10 +440,14 @@ class SigmaRuleBase:
         # the special cases
         if len(self.tags) > 0:
             d["tags"] = [str(tag) for tag in self.tags]
+        # dates are written in the form the loader accepts (a datetime object, as YAML makes of an
+        # unquoted timestamp, is reduced to its date)
         if self.date is not None:
-            d["date"] = self.date.isoformat()
+            d["date"] = date(self.date.year, self.date.month, self.date.day).isoformat()
         if self.modified is not None:
-            d["modified"] = self.modified.isoformat()
+            d["modified"] = date(
+                self.modified.year, self.modified.month, self.modified.day
+            ).isoformat()
 
         # custom attributes
         d.update(self.custom_attributes)
